@@ -67,7 +67,7 @@ func drawWorldParams(t *dsim.Tape, epoch uint64, salt uint64, small bool) world.
 }
 
 // drawWorlds generates and builds n epochs with distinct epoch numbers (ascending).
-func drawWorlds(x *runner.X, n int, withGsfa bool, small bool, allowSplitTx bool) []*builtWorld {
+func drawWorlds(x *runner.X, n int, withGsfa bool, small bool, splitTxProb float64) []*builtWorld {
 	t := x.Tape
 	pool := []uint64{0, 1, 2, 5, 77, 600, 601}
 	perm := t.Perm(len(pool))
@@ -79,7 +79,7 @@ func drawWorlds(x *runner.X, n int, withGsfa bool, small bool, allowSplitTx bool
 	var out []*builtWorld
 	for i, e := range epochs {
 		p := drawWorldParams(t, e, uint64(1000+i), small)
-		if allowSplitTx && !withGsfa && t.Bool(0.2) {
+		if splitTxProb > 0 && !withGsfa && t.Bool(splitTxProb) {
 			p.SplitTxData = true
 		}
 		if !small && t.Bool(0.04) {
@@ -116,7 +116,7 @@ func scenarioC02(x *runner.X) {
 	t := x.Tape
 	engineKnobs(nil)
 	n := t.Range(1, 3)
-	ws := drawWorlds(x, n, false, false, true)
+	ws := drawWorlds(x, n, false, false, 0.2)
 	if ws == nil {
 		return
 	}
@@ -269,7 +269,8 @@ func scenarioC03(x *runner.X) {
 	t := x.Tape
 	engineKnobs(nil)
 	n := t.Range(1, 3)
-	ws := drawWorlds(x, n, false, true, false)
+	// 40 %: transactions whose data spans several frames (a colliding signature can then land on one)
+	ws := drawWorlds(x, n, false, true, 0.4)
 	if ws == nil {
 		return
 	}
